@@ -231,8 +231,41 @@ def construct_outcome(kind, form):
     return "other:" + type(v).__name__
 
 
+# add_fields WITHOUT a type map: the field type is inferred from the values ("for basic types, they can be inferred")
+INFER_FORMS = ["list_int", "list_str", "list_float", "list_bool", "list_mixed", "nd_int", "nd_float", "nd_bool", "nd_str",
+               "encoded_ragged", "dna_ragged", "list_dna_rows", "string_array", "list_list_int"]
+# what the values naturally are: the classes a column inferred from them may have
+INFER_ALLOWED = {
+    "list_int": ["ndarray:i"], "nd_int": ["ndarray:i"], "list_float": ["ndarray:f"], "nd_float": ["ndarray:f"],
+    "list_bool": ["ndarray:b"], "nd_bool": ["ndarray:b"], "list_mixed": ["ndarray:f", "raise"],
+    "list_str": ["encragged:base", "stringarray"], "nd_str": ["encragged:base", "stringarray"],
+    "encoded_ragged": ["encragged:base", "stringarray"], "string_array": ["encragged:base", "stringarray", "raise"],
+    "dna_ragged": ["encragged:alpha"], "list_dna_rows": ["encragged:alpha"],
+    "list_list_int": ["ragged:i", "raise"],      # not a "basic type": refusing is fine, a wrong class is not
+}
+
+
+def infer_outcome(form):
+    """class of the column `Interval.add_fields({'extra': <form>})` (no type map) stores, or 'raise'"""
+    m = _mods()
+    bnp = m["bnp"]
+    forms = dict(_forms())
+    forms["list_mixed"] = lambda: [1.5, 2]
+    forms["list_dna_rows"] = lambda: list(bnp.as_encoded_array(["ACG", "T"], bnp.DNAEncoding))
+    try:
+        t = m["classes"]["Interval"][0](["a", "b"], [1, 2], [3, 4])
+        r = t.add_fields({"extra": forms[form]()})
+        col = r.extra
+        len(r)
+        r.tolist()
+    except Exception:
+        return "raise"
+    return _col_class(m, col)
+
+
 def regenerate():
     rows = [(k, f, construct_outcome(k, f)) for k in KIND_ORDER for f in FORM_ORDER]
+    irows = [(f, infer_outcome(f)) for f in INFER_FORMS]
     out = ["import BnpVerif.Model.C19",
            "/-! GENERATED on every run by harness/props/c19.py from the package imported from /repo: what the constructor of a",
            "one-field table of every field kind does with every argument form (class of the stored column, or `raise`).",
@@ -240,6 +273,10 @@ def regenerate():
            "namespace Gen.C19", "",
            "def constructTable : List (String × String × String) := ["]
     out.append(",\n".join(f'  ("{k}", "{f}", "{o}")' for k, f, o in rows))
+    out.append("]")
+    out.append("\n/-- `add_fields` without a type map: argument form ↦ class of the inferred column (or `raise`) -/")
+    out.append("def inferTable : List (String × String) := [")
+    out.append(",\n".join(f'  ("{f}", "{o}")' for f, o in irows))
     out.append("]")
     out.append("\nend Gen.C19\n")
     return [("BnpVerif/Gen/C19.lean", "\n".join(out))]
@@ -379,6 +416,11 @@ def _apply_rows(width, rows, op):
             raise Raise()
         orows = [list(r) for r in zip(*o)]
         return width, (rows + orows if k == "concat" else orows + rows)
+    if k == "pred":
+        if op["j"] >= width:
+            raise Raise()
+        keep = (lambda x: x not in op["vals"]) if op["how"] == "ne" else (lambda x: x in op["vals"])
+        return width, [r for r in rows if keep(r[op["j"]])]
     if k == "sort":
         if op["j"] >= width:
             raise Raise()
@@ -439,6 +481,8 @@ def oracle(c):
                     walk(sub, prefix + nm + ".")
         walk(c["schema"], "")
         return {"keys": keys, "leaves": list(range(cnt[0])), "roundtrip": True}
+    if c["op"] == "infer_cell":
+        return {"natural_class": True}
     if c["op"] == "construct_cell":
         return {"conforms_or_raises": True}
     if c["op"] == "construct":
@@ -452,6 +496,7 @@ def oracle(c):
 # ---------------------------------------------------------------- cases
 
 FINALS = ["tolist", "iter", "dict", "pandas", "tuples"]
+PREDABLE = {"sid", "int", "float", "opt"}      # fields whose `==`, `!=`, `np.isin` give a row mask
 SORTABLE = {"int", "float", "opt", "sid", "str", "dna"}
 ADDABLE = ["int", "str", "float"]
 
@@ -477,6 +522,12 @@ def _single_ops(kinds, n, rng):
         ops.append({"k": "concat", "other": o})
         ops.append({"k": "concatL", "other": o})
     for j, k in enumerate(kinds):
+        if k in PREDABLE:
+            present = 10 + 3 * (n - 1) if n else 10
+            ops.append({"k": "pred", "j": j, "how": "eq", "vals": [present], "kind": k})
+            ops.append({"k": "pred", "j": j, "how": "ne", "vals": [present], "kind": k})
+            ops.append({"k": "pred", "j": j, "how": "eq", "vals": [999], "kind": k})
+            ops.append({"k": "pred", "j": j, "how": "isin", "vals": [10, 999, present], "kind": k})
         if k in SORTABLE:
             ops.append({"k": "sort", "j": j, "kind": k})
         ops.append({"k": "replace", "j": j, "c": [50 + i for i in range(n)]})
@@ -506,7 +557,7 @@ def _random_program(kinds, rng, nmax):
 
     for _ in range(rng.randrange(2, 7)):
         n = len(rows)
-        what = rng.choice(["take", "take", "slice", "mask", "concat", "concat", "sort", "replace", "add", "bad"])
+        what = rng.choice(["take", "take", "slice", "mask", "concat", "concat", "sort", "replace", "add", "bad", "pred", "pred"])
         if what == "take":
             ix = [rng.randrange(n) for _ in range(rng.randrange(0, n + 3))] if n else []
             if n and rng.random() < 0.3:
@@ -525,6 +576,16 @@ def _random_program(kinds, rng, nmax):
             on = rng.choice([0, 0, 1, 2, 4])
             base = new(on)
             op = {"k": rng.choice(["concat", "concatL"]), "other": [list(base) for _ in range(width)]}
+        elif what == "pred":
+            cand = [j for j, k in enumerate(kinds) if k in PREDABLE]
+            if not cand:
+                continue
+            j = rng.choice(cand)
+            pool = [r[j] for r in rows] or [0]
+            op = {"k": "pred", "j": j, "how": rng.choice(["eq", "ne", "isin"]), "kind": kinds[j],
+                  "vals": [rng.choice(pool)] + ([rng.choice(pool), 777] if rng.random() < 0.5 else [])}
+            if op["how"] != "isin":
+                op["vals"] = op["vals"][:1]
         elif what == "sort":
             cand = [j for j, k in enumerate(kinds) if k in SORTABLE]
             if not cand:
@@ -696,6 +757,9 @@ def cases(tier, rng):
         return out
     for _ in range(300 if big else 40):
         yield {"op": "dict", "type": "D_all", "schema": rnd_schema(0), "n": rng.choice([0, 1, 2])}
+    # 1h. add_fields without a type map: every argument form
+    for f in INFER_FORMS:
+        yield {"op": "infer_cell", "type": "Interval", "form": f}
     # 2. random programs
     R = (60000 if big else 2000)
     for _ in range(R):
@@ -735,6 +799,16 @@ def _apply_impl(m, t, op, kinds, names):
         if len(op["other"]) != len(kinds):
             raise ValueError("width")
         return np.concatenate([t, o] if k == "concat" else [o, t]), kinds, names
+    if k == "pred":
+        col = getattr(t, names[op["j"]])
+        vals = [cell(kinds[op["j"]], v) for v in op["vals"]]
+        if op["how"] == "eq":
+            mk = col == vals[0]
+        elif op["how"] == "ne":
+            mk = col != vals[0]
+        else:
+            mk = np.isin(col, vals)
+        return t[mk], kinds, names
     if k == "sort":
         return t.sort_by(names[op["j"]]), kinds, names
     if k == "replace":
@@ -928,6 +1002,9 @@ def impl(c):
             return {"keys": keys, "leaves": leaves, "roundtrip": bool(ok)}
         except Exception as e:
             return {"err": "raise", "exc": type(e).__name__}
+    if c["op"] == "infer_cell":
+        o = infer_outcome(c["form"])
+        return {"outcome": o, "natural_class": o in INFER_ALLOWED[c["form"]]}
     if c["op"] == "construct_cell":
         o = construct_outcome(c["kind"], c["form"])
         return {"outcome": o, "conforms_or_raises": o == "raise" or o in ALLOWED[c["kind"]]}
@@ -988,6 +1065,8 @@ def agree(c, got, exp):
         return core.canon(got) == core.canon(exp)
     if c["op"] == "dict":
         return core.canon(got) == core.canon(exp)
+    if c["op"] == "infer_cell":
+        return isinstance(got, dict) and got.get("natural_class") is True
     if c["op"] == "construct_cell":
         return isinstance(got, dict) and got.get("conforms_or_raises") is True
     if c["op"] == "construct":
@@ -1088,6 +1167,8 @@ def finding_key(c, got, exp):
         return "sort_by:long-row"
     if c["op"] == "dict":
         return "dict:" + ("raises-" + str(got.get("exc")) if isinstance(got, dict) and "err" in got else "nested-roundtrip")
+    if c["op"] == "infer_cell":
+        return "add_fields:inferred-type-" + c["form"]
     if c["op"] == "construct_cell":
         return "construct:unconverted-" + c["kind"]
     if c["op"] == "construct":
